@@ -1409,19 +1409,23 @@ def _add(p, key, items):
     PROPS[p][key] = list(PROPS[p][key]) + list(items)
 
 _add("C01", "partial", [
-    "number-range clause: `numbersInRange` in c01_accepts_iff is `(Spec.Canon.numOf cfg p).isSome`, and numOf IS the configured conversion "
-    "(Model.Num.convertDefault / convertRoundtrip) - for this clause the theorem says 'the converter does not fail', not 'within finite f64 "
-    "range'. Under float_roundtrip the two coincide (c07_nearest_even + c07_all_sources: rejected exactly when the nearest-even rounding "
-    "is infinite). In the default build they do NOT: the crate (and the model) reject some literals whose value is below f64::MAX by less "
-    "than 2 ulp (17976931348623156225e289, 1.7976931348623158e308 rounds to f64::MAX) and accept some above 2^1024 "
-    "(179769313486231591e291, finding C08-F1); proved band: rejected => exact >= 2^1024-2^970-2^972, exact >= 2^1024+2^972+2^965 => "
-    "rejected (c08p_rejected_only_near_threshold, c08p_overflow_direction_partial). The driver's C01 oracle uses the same numOf, so it "
-    "cannot see this band; C08's exact-rational oracle does (findings C08-F1 and the within-2-ulp rejections are reported there)",
+    "number-range clause, default build only: `numbersInRange` in c01_accepts_iff is `(Spec.Canon.numOf cfg p).isSome`, the model's "
+    "conversion. Under float_roundtrip this is now a theorem about the specification: c01_range_fr (numbersInRange <=> "
+    "Spec.Range.finiteRange: integer literal within [i64::MIN, u64::MAX] or exact decimal value with a finite nearest-even binary64 "
+    "rounding) and c01_accepts_iff_fr (the accepted language with no notion of the model on the right-hand side; inputs shorter than "
+    "2^29-20 bytes). In the DEFAULT build the equivalence is false in both directions and stays so: only the band is proved "
+    "(c01_range_default_band: accepted => exact < 2^1024+2^972+2^965, exact < 2^1024-2^970-2^972 => accepted) with kernel-checked "
+    "witnesses on both sides (c01_default_rejects_finite: 17976931348623156225e289 is below f64::MAX and rejected; "
+    "c01_default_accepts_infinite: 179769313486231591e291 >= 2^1024 is accepted) - open finding C01-default-range-band. The driver "
+    "judges the clause with Spec.Range (roundNE64 of the exact value; c01_range_oracle) independently of Model.Num",
     "fuel: numValue maps the conversion's outOfFuel to NumberOutOfRange; that outcome is excluded by c14_no_fuel / c08p_link, not by this theorem",
 ])
 _add("C02", "partial", [
     "for float literals `canon` is the configured conversion itself (Spec.Canon.numOf = Model.Num.convert*): c02_value_is_canon says nothing "
-    "about float accuracy (C07: nearest-even under float_roundtrip, c07_all_sources; C08: 5 ulp in the default build)",
+    "about float accuracy (C07: nearest-even under float_roundtrip for EVERY literal, c07_typed_nearest_all / c07_nearest_even_all; C08: "
+    "5 ulp in the default build). The driver no longer rests on that: every number of the value the crate returns is matched with its "
+    "literal in the text and judged with Spec.Decimal / Spec.Ieee alone (exact integer; float within 5 ulp, resp. the nearest-even "
+    "double under float_roundtrip) - verdict `C02 <src>: float value of literal ...`",
 ])
 _add("C04", "partial", [
     "c04_value_ap / c04_reparse_ap and every c04_* theorem under arbitrary_precision / raw_value are theorems about the machine model, which "
@@ -1445,22 +1449,12 @@ _add("C06", "partial", [
     "theorem is true by construction; the real do_deserialize_i128 / u128 is Model.Typed.deInt128, covered by c06_via_value (textInt) and "
     "c10_typed_prefix. IntTy has ten widths (isize / usize are not separate: 64-bit target)",
 ])
-_add("C07", "partial", [
-    "c07_limbs_total / c07_bhcomp_limbs_exact assume -2048 < scaled_exponent < 1024; no theorem shows that the call sites of bhcomp inside "
-    "parse_truncated_float / deFloatRoundtrip stay in that range, so c07_correct remains a statement with Bigint = Nat and the limb-level "
-    "closure is not yet composed with it (the range holds on every generated case: op lm and the f64rt families)",
-    "c07_nearest_even / c07_typed_nearest exclude by hypothesis (a) integer literals within u64 / i64 read as f64 / f32 - these are serde's "
-    "`as` casts (assumed correctly rounded; C08-F2-like double rounding cannot occur for f64, and for f32 under float_roundtrip the cast is "
-    "direct) - and (b) exponents beyond i32, covered only by c07_other_literals, which restates the exponent-overflow rule of the model "
-    "without relating it to Overflows64 / underflow",
-])
-_add("C08", "partial", [
-    "c08_f32_once is true by construction: Model.FloatDefault.Parts.toF32 is defined as toF64 then F64.toF32 off the integer path; the f32 "
-    "clause is tied to the crate by the correspondence (op f32lit) and, for typed targets, by c07_typed_f32_link (default build: "
-    "deNumber .f32 = convertDefault then serde's f32 visitor)",
-    "c08_underflow_zero requires exact <= 2^-1076; for exact values in (2^-1076, 2^-1075) - which round to 0 - no theorem says the result is "
-    "+-0 (it may be the least subnormal: within 1 ulp, covered by c08_within_5ulp)",
-])
+# C07: both items of the honesty pass are closed (wip-range): c07_bhcomp_calls_in_range / c07_correct_limbs compose the limb-level
+# closure with c07_correct; c07_int_literals_nearest / c07_typed_nearest_all / c07_nearest_even_all / c07_exponent_overflow_spec
+# leave no excluded class of literals.
+# C08: both items of the honesty pass are closed (wip-range): c08_f32_once_typed states the f32 clause on the typed path
+# (c08_f32_once, true by construction, is kept as a lemma about Model.FloatDefault only); c08_underflow_zero_sharp covers the
+# whole interval below 2^-1075.
 _add("C09", "partial", [
     "c09_slice_reader (and with it the slice/reader half of c09_stream_offsets and c09_untyped_line_col) is close to true by construction: "
     "Model.Machine has ONE reader abstraction and consults env.src only in the UTF-8 check of endStr and in errIdx, where every error is "
@@ -1556,6 +1550,104 @@ PROPS["C12"]["level_text"] += (
     "whose items are accepted in place (ItemOK) with whitespace between and the delimiter rule yields exactly v1 .. vn with "
     "byte_offset() just past each item, then None at the end of the input for every further call; c12_typed_values_agree - the same "
     "for item texts of the C16 / C04 text leg (Agree1) separated by non-empty whitespace.")
+# ---- the two real string scanners of read.rs (Model.ReadSlice / ReadIo / ReadEscape; docs/READERS-NOTES.md). Additive amendments of C09 and C05.
+READERS_RULE = (" String scanners called directly (ops rd, rs; harness/src/readers.rs): serde_json::de::{StrRead, SliceRead, IoRead} are public and "
+                "the #[doc(hidden)] methods of the sealed trait Read can be called: parse_str, parse_str_raw, ignore_str (and decode_hex_escape "
+                "wherever a \\u has just been read) after `start` calls of next(), on the three readers side by side (IoRead over a randomly chunked "
+                "io::Read), observing bytes, Reference::Borrowed vs Copied (does the returned pointer lie inside the input, at which offset), "
+                "byte_offset() afterwards, or message, category, line, column and byte_offset(). Inputs: every escape family of c01::strings() as "
+                "bare literals (all ordered pairs of \\uXXXX over the 16 surrogate-class boundary values, triples after a leading surrogate, every "
+                "plane as a pair, 1500 (thorough 20000) random pairs), all 256 byte values at 12 position classes (raw, after a backslash, at each "
+                "of the four hex positions, after a leading surrogate, after its backslash, inside the second group) closed and at the end of "
+                "input, 11 literals with \\u groups cut at every length (with quotes / newlines / non-digits among the last bytes), bodies of every "
+                "length 0..26 (thorough 40) after 0..8 spaces with each of 8 special bytes at every offset (8-byte SWAR chunk boundaries), runs of "
+                "63..1000 (thorough 4097) bytes plain / with one escape / with a control byte / unclosed / all-\\u, 16 ill-formed and 6 well-formed "
+                "UTF-8 sequences in 6 contexts, 4000 (thorough 60000) random mixtures; a subset also end to end through Deserializer::from_str / "
+                "from_slice / from_reader into String, &str, ByteBuf, IgnoredAny (op rs). Non-trivial: the bytes after `start` are not all plain "
+                "ASCII, or the call fails.")
+PROPS["C09"]["rule"] += READERS_RULE
+PROPS["C05"]["rule"] += READERS_RULE
+PROPS["C09"]["lean_targets"] = PROPS["C09"]["lean_targets"][:-1] + ["SJ.Props.C09Readers"] + PROPS["C09"]["lean_targets"][-1:]
+PROPS["C05"]["lean_targets"] = PROPS["C05"]["lean_targets"][:-1] + ["SJ.Props.C09Readers"] + PROPS["C05"]["lean_targets"][-1:]
+PROPS["C09"]["gen_keys"] = PROPS["C09"]["gen_keys"] + ["readesc.", "ReadEsc", "hex.", "swar.", "Hex", "Swar"]
+PROPS["C05"]["gen_keys"] = PROPS["C05"]["gen_keys"] + ["readesc.", "ReadEsc"]
+PROPS["C09"]["lean_targets"] = PROPS["C09"]["lean_targets"][:-1] + ["SJ.Props.C09ReadersRaw"] + PROPS["C09"]["lean_targets"][-1:]
+# the honesty-pass item about c09_slice_reader (one reader abstraction in Model.Machine) is answered for strings: replace it
+PROPS["C09"]["partial"] = [x for x in PROPS["C09"]["partial"] if not x.startswith("c09_slice_reader (and with it")] + [
+    "c09_slice_reader is a theorem about Model.Machine, which has ONE reader abstraction (env.src is consulted only in endStr's UTF-8 check and "
+    "in errIdx). For STRING LITERALS - where the crate really has two scanners - this is no longer the whole story: SliceRead / StrRead and "
+    "IoRead are modelled separately (Model.ReadSlice, Model.ReadIo; the generic parse_escape / parse_unicode_escape / ignore_escape once, "
+    "Model.ReadEscape, as in the crate) and each is proved to refine the machine's string steps on every input (c09_machine_string_steps, "
+    "c09_slice_str_refines, c09_strread_str_refines, c09_io_str_refines, c09_slice_ignore_refines, c09_io_ignore_refines; raw variant against "
+    "Model.Typed.runRaw: c09_slice_raw_refines, c09_io_raw_refines), hence c09_str_readers_agree / c09_raw_readers_agree / "
+    "c09_str_readers_positions / c09_strread_slice are theorems about two different pieces of code. OUTSIDE string literals (whitespace, "
+    "numbers, idents, structure) de.rs is one generic body over next / peek / discard; there the difference between the sources is the "
+    "position bookkeeping, modelled separately in Model.LineCol (c09_readers_in_step, c09_positions_agree); the machine's 'reader' for those "
+    "parts remains one abstraction tied by the three-source correspondence run",
+    "the refinement theorems are stated from the state de.rs calls the functions in (slice: index <= len; reader: i bytes handed out, peek "
+    "slot empty, clean end of input); Error::io of a failing reader inside a string is Model.IoFault's business (C13), not modelled in "
+    "Model.ReadIo; the models are list-based (no usize overflow, no allocation failure)",
+]
+PROPS["C05"]["partial"] = [x for x in PROPS["C05"]["partial"] if not x.startswith("two clauses of the statement have no theorem")] + [
+    "borrowed clause: c05_borrowed / c05_borrowed_subslice (SliceRead::parse_str returns Reference::Borrowed exactly when the body holds no "
+    "backslash, and then the bytes are input[start .. end-1]) are theorems about Model.ReadSlice, the separately modelled slice scanner "
+    "(SWAR scan, bulk copy, scratch.is_empty() test), tied to the crate by op rd (pointer range of the returned &str). The step from "
+    "Reference::Borrowed to '<&str>::deserialize succeeds' is serde's visitor convention (visit_borrowed_str vs visit_str), observed by op rs",
+    "bytes clause ('WTF-8 for unpaired surrogates, raw non-UTF-8 passes through'): both readers' parse_str_raw are proved equal to "
+    "Model.Typed.runRaw (c09_slice_raw_refines, c09_io_raw_refines), the automaton behind the typed bytes target; there is no theorem "
+    "relating runRaw to an independent WTF-8 specification, and the borrowed flag of the raw variant is checked per case only (op rd R); "
+    "the decode theorems c05_decode_spec / c05_roundtrip are for the Value target of the machine, to which the real scanners are now tied "
+    "by c09_slice_str_refines / c09_io_str_refines + c09_machine_string_steps",
+]
+READERS_TB = ("the two string scanners of read.rs are modelled separately (Model.ReadSlice over Model.Swar.skipToEscape + Model.LineCol.SlicePos; "
+              "Model.ReadIo over Model.LineCol.IoPos; the generic free functions once in Model.ReadEscape) and proved to refine the machine's "
+              "string steps; what stays trusted there: the hand transcription of control flow (validated by ops rd / rs calling the real methods), "
+              "tools/extract.py gen_readesc for the escape letters / surrogate bounds / pair constants / hex-group lengths, str::from_utf8 = "
+              "Spec.Utf8.validUtf8, Vec / slice operations by documented semantics, memchr2 by contract (C05)")
+PROPS["C09"]["trusted_base"] = PROPS["C09"]["trusted_base"] + [READERS_TB]
+PROPS["C05"]["trusted_base"] = PROPS["C05"]["trusted_base"] + [READERS_TB]
+PROPS["C09"]["level_text"] += (" String scanners (Props/C09Readers.lean, Props/C09ReadersRaw.lean): SliceRead/StrRead and IoRead are separate models "
+                               "and each refines the machine's string steps on every input - same decoded bytes and end index, or same error code at "
+                               "the same index (control characters, invalid escapes, lone / unpaired surrogates, \\u cut by the end of input: both "
+                               "EofWhileParsingString at the end of input whenever fewer than four bytes follow \\u, InvalidEscape at k+4 otherwise iff "
+                               "not four hex digits; InvalidUnicodeCodePoint at the closing quote) - hence agree with each other, with the same line "
+                               "and column; &str = slice on valid UTF-8; parse_str_raw of both = Model.Typed.runRaw.")
+PROPS["C05"]["level_text"] += (" Borrowed clause: c05_borrowed / c05_borrowed_subslice over the separately modelled slice scanner (Model.ReadSlice); "
+                               "the real scanners are tied to the machine's decode theorems by c09_slice_str_refines / c09_io_str_refines.")
+# wip-range: the number-range clause on the specification side (Spec.Range, Props/C01Range)
+PROPS["C01"]["lean_targets"] = ["SJ.Props.C01", "SJ.Props.C01Iff", "SJ.Props.C01Range", "SJ.Audit.C01"]
+
+# wip-range: C07 without excluded classes and with the limb-level closure composed; C08 sharpened
+PROPS["C07"]["lean_targets"] = ["SJ.Props.C07", "SJ.Props.C07Total", "SJ.Audit.C07"]
+PROPS["C08"]["lean_targets"] = ["SJ.Props.C08", "SJ.Props.C08Parser", "SJ.Props.C08Sharp", "SJ.Audit.C08"]
+PROPS["C01"]["level_text"] += (
+    " Number range on the specification side (Props/C01Range): c01_range_fr, c01_accepts_iff_fr (float_roundtrip: accept <=> JSON "
+    "text + side conditions with Spec.Range.finiteRange - exact decimal value, nearest-even rounding finite - for inputs shorter than "
+    "2^29-20 bytes), c01_range_default_band with the witnesses c01_default_rejects_finite / c01_default_accepts_infinite (default build: "
+    "only a band of 2 ulp either side of 2^1024-2^970 is undetermined; open finding C01-default-range-band), c01_range_oracle (the "
+    "driver's executable verdict decides finiteRange).")
+PROPS["C01"]["rule"] += (" Tag range-band: literals in and around the band [2^1024-2^970-2^972, 2^1024+2^972+2^965) in 17-25 digit, "
+    "pointed, 0.000-prefixed, e/E/e+ and 309-digit integer spellings (exact 2^1024-2^970, f64::MAX, 2^1024 and neighbours), top level and "
+    "nested in arrays / objects; tag range-tiny: exponents below -308, subnormals, underflow. The accept/reject of the crate on them is "
+    "judged by Spec.Range (exact rational, roundNE64), not by the model.")
+PROPS["C02"]["rule"] += (" Every number of a returned value is matched with its literal in the text and judged with Spec.Decimal / "
+    "Spec.Ieee alone: exact integer, float within 5 ulp (default build) resp. the nearest-even double (float_roundtrip).")
+PROPS["C07"]["level_text"] += (
+    " Closed gaps (Props/C07Total): c07_bhcomp_calls_in_range (every call of bhcomp by parse_concise_float / parse_truncated_float has "
+    "a non-zero mantissa and scaled_exponent in [-1118, 330), inside the range of c07_limbs_total) and c07_correct_limbs (the whole "
+    "conversion with bhcomp.rs on limb vectors through math.rs, Model.LexicalLimbs, never panics and equals the specification); "
+    "c07_nearest_even_all and c07_exponent_overflow_spec (exponent digits beyond i32: NumberOutOfRange iff Overflows64/32 of the exact "
+    "value, otherwise +-0 = the nearest-even value); c07_int_literals_nearest (u64/i64 literals cast by serde's visitor are nearest-even "
+    "for f64 and, rounded once, for f32) and c07_typed_nearest_all (deserialize_f64 / deserialize_f32 under float_roundtrip return the "
+    "nearest-even value of EVERY literal; rejected exactly when it is infinite).")
+PROPS["C08"]["level_text"] += (
+    " Sharpened (Props/C08Sharp): c08_underflow_zero_sharp(_parts) / c08p_underflow_zero_sharp - every exact value below 2^-1075 (the whole "
+    "interval that rounds to zero) gives +-0: monotonicity of nearest-even rounding + kernel evaluation of the largest u64 significand "
+    "below the bound at each of the twenty exponents -324..-343; c08_f32_once_typed - on the typed path (Model.Typed.deNumber) in the "
+    "default build deserialize_f32 returns F64.toF32 of what deserialize_f64 returns on a float-path literal and fails alike "
+    "(c08_f32_once_typed_fails_on_large_int: finding C08-F2 on the typed path).")
+PROPS["C08"]["rule"] += (" Tag tiny-band: for each exponent -324..-343 the largest u64 significand below 2^-1075, its neighbours and "
+    "random significands in the upper half of (2^-1076, 2^-1075), in every spelling.")
 
 # ---- gaps of the honesty pass closed by theorems (branch wip-smalls): C20 text -> value -> text; C05 bytes target; C13 kind;
 #      C06 128-bit typed path; C08 typed f32.
@@ -1581,3 +1673,36 @@ PROPS["C20"]["level_text"] += (
 PROPS["C20"]["technique"] += ("; composition of parser soundness (C02), the serializer theorem for Value (C03) and a mutual induction over the "
     "syntax tree (render of the canonical value = compact spelling of the tree; a member list in map order is the map it builds); "
     "induction over derivations for the byte-level whitespace stripper")
+
+# C05 bytes clause (branch wip-smalls): independent WTF-8 specification + theorem on every input; finding for bare control characters
+PROPS["C05"]["lean_targets"] = PROPS["C05"]["lean_targets"][:-1] + ["SJ.Props.C05Bytes", "SJ.Props.C05BytesReaders"] + PROPS["C05"]["lean_targets"][-1:]
+PROPS["C05"]["partial"] = [x for x in PROPS["C05"]["partial"] if not x.startswith("bytes clause ('WTF-8 for unpaired surrogates")] + [
+    "bytes clause: c05_bytes_target_total characterises parse_str_raw on EVERY input by the independent Spec.Wtf8 (lex + decodeBytes) and "
+    "c05_bytes_target_readers carries it to both real scanners (through c09_slice_raw_refines / c09_io_raw_refines). ONE deviation from the "
+    "statement, open finding C05-bytes-control-char-accepted: 'the same decoding applies' keeps the rejection of a bare control character, "
+    "the crate's non-validating scanner (validate = false) copies it - the theorems describe the code (a raw item is any byte but quote and "
+    "backslash; witness c05_bytes_control_passes), op bytesctl reports the deviation. The borrowed flag of the raw variant is still "
+    "checked per case only (op rd R)",
+]
+PROPS["C05"]["rule"] += (" Op bytesctl: each of the 32 control bytes alone in a literal (and three of them in a context with an escape, a "
+    "multi-byte character and a lone surrogate escape) read as ByteBuf from str / slice / reader; 0x20 and 0x7f as controls of the check. "
+    "Op rd R additionally carries the executable bytes clause (Spec.Wtf8: decoded bytes, end offset, InvalidEscape / Eof position) on "
+    "every generated case.")
+PROPS["C05"]["level_text"] += (
+    " Bytes clause (Spec/Wtf8.lean, Proofs/Wtf8.lean, Props/C05Bytes.lean, Props/C05BytesReaders.lean): Spec.Wtf8.decodeBytes - raw bytes "
+    "copied (0x80-0xFF in any arrangement), simple escapes replaced, \\uXXXX -> UTF-8 of the code point, a high surrogate escape "
+    "immediately followed by a low one -> the four-byte UTF-8 of the scalar, ANY OTHER surrogate escape -> its three-byte generalized "
+    "UTF-8 (WTF-8) form ED A0..BF 80..BF (c05_bytes_wtf8_form) - and Spec.Wtf8.lex, the RFC 8259 item structure of an arbitrary byte "
+    "string. c05_bytes_target_total: Model.Typed.parseStrRaw (the automaton behind deserialize_bytes / deserialize_byte_buf) on EVERY "
+    "input, every source, configuration and fault mode, returns exactly decodeBytes of the items up to the closing quote with the unread "
+    "input and the index just past the quote; or InvalidEscape at the byte after a backslash that starts no escape / at the fourth byte "
+    "of a \\u group that is not four hex digits; or EofWhileParsingString at the end (Io for a failing reader). c05_bytes_target / "
+    "c05_bytes_target_only (a success is exactly a well-formed literal), c05_bytes_errors (no other error code: never a control-character, "
+    "surrogate or UTF-8 error), c05_bytes_entry (through deBytes), c05_bytes_raw_passthrough (a content without quote and backslash is "
+    "returned as it stands, UTF-8 or not), c05_bytes_lone_surrogate, c05_bytes_vs_str (whatever the validating parse_str accepts the "
+    "bytes decoder accepts with the same bytes, rest and position; c05_bytes_vs_str_spec: decodeItems = some s => decodeBytes = s), "
+    "c05_bytes_target_readers (the same characterisation for SliceRead / StrRead / IoRead::parse_str_raw as separately modelled). "
+    "c05_bytes_control_passes: the witness of finding C05-bytes-control-char-accepted (a bare line feed is copied by the bytes target, "
+    "rejected by the text target).")
+PROPS["C05"]["technique"] += ("; an independent WTF-8 decoding specification and a simulation of the raw-string automaton (pending-surrogate "
+    "formulation = look-ahead formulation) by strong induction on the input")
